@@ -83,7 +83,7 @@ CHECK_DEADLOCK FALSE
 
 def sig_of(d):
     """Structural classification of a divergence (never the property id alone)."""
-    return {"sub": "gate", "rule": d.get("rule"), "op": d.get("origin_op") or d.get("op"), "field": d.get("field"),
+    return {"sub": "gate", "mode": d.get("mode", "seq"), "rule": d.get("rule"), "op": d.get("origin_op") or d.get("op"), "field": d.get("field"),
             "tr": d.get("tr"), "sink": d.get("sink"),
             "required": d.get("req", {}).get(d.get("tr") or "X"),
             "has_keys": (d.get("gen", {}).get(d.get("tr") or "X", 0) > 0)}
@@ -129,7 +129,8 @@ def replay_file(ck, beh_path, label, tier, extra_env=None, mode="replay"):
     with concurrent.futures.ThreadPoolExecutor(max_workers=n) as ex:
         procs = list(ex.map(one, range(n)))
     summ = {"behaviours": 0, "steps": 0, "datagrams": 0, "deliveries": 0, "diverged": 0, "late": 0, "stale": 0,
-            "unspecified": 0}
+            "unspecified": 0, "ref_agree": 0, "ref_disagree": 0}
+    ref_seen = set()
     for i, p in enumerate(procs):
         if p.returncode != 0:
             raise vlib.ToolError(f"gate replayer shard {i} failed rc={p.returncode}: {p.stderr[-2000:]}")
@@ -140,7 +141,12 @@ def replay_file(ck, beh_path, label, tier, extra_env=None, mode="replay"):
                 for k in summ:
                     summ[k] += r.get(k, 0)
             elif r.get("type") == "divergence":
-                if r.get("rule") == "EXT":
+                if r.get("rule") == "EXT" and r.get("field") == "reference":
+                    if r["op"] not in ref_seen and not any(d.get("field") == "reference" and d.get("op") == r["op"]
+                                                            for d in ck.drift):
+                        ref_seen.add(r["op"])
+                        ck.drift.append({k: r.get(k) for k in ("field", "op", "expected", "observed")})
+                elif r.get("rule") == "EXT":
                     ck.drift.append({k: r.get(k) for k in ("mode", "field", "op", "step", "expected", "observed", "req", "gen",
                                                            "inbound") if r.get(k) is not None})
                 else:
@@ -200,7 +206,9 @@ def run(tier):
             raise vlib.ToolError(f"replayed {summ['behaviours']} of {res['counts']['REPLAY']} behaviours")
         ck.notes.append(f"{label}: {res['counts']['REPLAY']} behaviours, {summ['steps']} steps, "
                         f"{summ['datagrams']} datagrams classified, {summ['deliveries']} deliveries traced, "
-                        f"{summ['late']} datagrams arrived after their step's sentinel, {summ['stale']} stale")
+                        f"{summ['late']} datagrams arrived after their step's sentinel, {summ['stale']} stale; "
+                        f"webrtc-srtp second opinion on protected datagrams: {summ['ref_agree']} agree, "
+                        f"{summ['ref_disagree']} disagree")
         os.remove(beh)
     # ---- the same operations racing from three tasks: every (state, task step) edge of the concurrent model is
     # executed on the real transports under the baton scheduler (exact interleaving at the H7 sched points)
